@@ -8,7 +8,8 @@ tbl <shift> <swap> <mapoff> <pagesoff> <nonauto> <n> <pfn> <mfn> ...   > tbl ok
 p2m <addr> / m2p <addr>              > p2m ok <base> <idx0> <remain> <elemsz> | p2m nodata
 gp <as> <addr>                       > gp ok <offset> <len> | gp nodata
 dump <nonauto> <be> <shift> <mapoff> <pagesoff> <n> <pfn> <mfn> ...    (no output: layout of the next file)
-open <path> <virt_bits>              > open ok
+open <path> <virt_bits>              > open ok       (a new context)
+reopen <path> <virt_bits> <how>      > reopen ok     (the same context is given the file of the last `dump` line)
 page <as> <frame>                    > page ok <idx> <pfn> 1 | page nodata
 rd <as> <addr>                       > rd ok <hex of 8 bytes> | rd nodata -
 conv <from> <to> <addr>              > conv ok <addr> | conv fail
@@ -50,6 +51,10 @@ structure St where
   direct : Option Dump := none
   file : Option Dump := none
   xlat : Xlat := {}
+  /-- stored number of `xen.xlat` of the context that is open -/
+  stored : Bool := false
+  /-- layout of the next file (`dump` line) -/
+  pending : Option Spec := none
 
 def showStep (name : String) (r : Except Err Step) : String :=
   match r with
@@ -101,14 +106,26 @@ partial def loop (h : IO.FS.Stream) (st : St) : IO Unit := do
     loop h st
   | "dump" :: na :: be :: shift :: mo :: po :: _n :: vals =>
     let b := be == "1"
-    let d := mkDump allOk allOk junk junk (na == "1") b shift.toNat! mo.toNat! po.toNat! (mkTbl b (vals.map String.toNat!))
-    loop h { st with file := d }
+    loop h { st with pending := some ⟨na == "1", b, shift.toNat!, mo.toNat!, po.toNat!, mkTbl b (vals.map String.toNat!)⟩ }
   | ["open", _, _] =>
-    IO.println (if st.file.isSome then "> open ok" else "> open system")
-    -- the harness sets the paging mode and fetches the translation handles
+    -- a new context; the harness sets the paging mode and fetches the translation handles
+    match st.pending.bind (openCtx allOk allOk junk junk {}) with
+    | some c =>
+      IO.println "> open ok"
+      let c := (fetchXlat .ok { c with x := setOpt c.x }).2
+      loop h { st with file := c.file, xlat := c.x, stored := c.xenXlat }
+    | none => IO.println "> open system"; loop h { st with file := none, xlat := {}, stored := false }
+  | ["reopen", _, _, _] =>
+    -- the context that is open is given the next file
     match st.file with
-    | some d => loop h { st with xlat := (revalidate d .ok (setOpt {})).2 }
-    | none => loop h st
+    | none => IO.println "> reopen noctx"; loop h st
+    | some _ =>
+      match st.pending.bind (openCtx allOk allOk junk junk ⟨st.stored, st.file, st.xlat⟩) with
+      | some c =>
+        IO.println "> reopen ok"
+        let c := (fetchXlat .ok { c with x := setOpt c.x }).2
+        loop h { st with file := c.file, xlat := c.x, stored := c.xenXlat }
+      | none => IO.println "> reopen system"; loop h { st with file := none, xlat := {}, stored := false }
   | ["reinit", fetch, os, _key, kind, _val] =>
     match st.file with
     | none => IO.println "> reinit noctx"; loop h st
